@@ -21,7 +21,7 @@ static void on_alarm(int sig) { (void)sig; char b[2600]; int n = snprintf(b, siz
 
 enum { EP_STREAM, EP_STREAM_C, EP_AUTO, EP_AUTO_C, EP_ALONE, EP_LZIP, EP_LZIP_C, EP_MICRO, EP_RAW_LZMA1, EP_RAW_LZMA2, EP_RAW_DELTA, EP_RAW_X86, EP_RAW_ARM64, EP_BLOCK, EP_INDEX, EP_FILEINFO, EP_MT, EP_MT_C, EP_NSTREAM,
 	EP_INDEX_BUF = EP_NSTREAM, EP_BLOCK_HEADER, EP_STREAM_HEADER, EP_STREAM_FOOTER, EP_FILTER_FLAGS, EP_PROPS, EP_VLI, EP_N };
-static const char *EPN[] = { "stream_decoder", "stream_decoder+concat+tell", "auto_decoder", "auto_decoder+concat", "alone_decoder", "lzip_decoder", "lzip_decoder+concat+ignore", "microlzma_decoder", "raw(lzma1)", "raw(lzma2)", "raw(delta+lzma2)", "raw(x86+lzma2)", "raw(arm64+delta+lzma2)",
+static const char *EPN[] = { "stream_decoder", "stream_decoder+concat+tell", "auto_decoder", "auto_decoder+concat+tell", "alone_decoder", "lzip_decoder", "lzip_decoder+concat+ignore", "microlzma_decoder", "raw(lzma1)", "raw(lzma2)", "raw(delta+lzma2)", "raw(x86+lzma2)", "raw(arm64+delta+lzma2)",
 	"block_decoder", "index_decoder", "file_info_decoder", "stream_decoder_mt(2)", "stream_decoder_mt(2)+concat+failfast", "index_buffer_decode", "block_header_decode", "stream_header_decode", "stream_footer_decode", "filter_flags_decode", "properties_decode", "vli_decode" };
 static lzma_options_lzma o_l; static lzma_options_delta o_d = { .type = LZMA_DELTA_TYPE_BYTE, .dist = 3 }; static lzma_filter ch[4]; static lzma_block blk; static lzma_filter blkf[LZMA_FILTERS_MAX + 1]; static lzma_index *idx_out;
 #define DEFLIMIT (40u << 20)
@@ -32,7 +32,7 @@ static lzma_ret ep_init(lzma_stream *s, int ep) {
 	case EP_STREAM: return lzma_stream_decoder(s, cur_memlimit, 0);
 	case EP_STREAM_C: return lzma_stream_decoder(s, cur_memlimit, LZMA_CONCATENATED | LZMA_TELL_ANY_CHECK | LZMA_TELL_UNSUPPORTED_CHECK | LZMA_TELL_NO_CHECK);
 	case EP_AUTO: return lzma_auto_decoder(s, cur_memlimit, 0);
-	case EP_AUTO_C: return lzma_auto_decoder(s, cur_memlimit, LZMA_CONCATENATED);
+	case EP_AUTO_C: return lzma_auto_decoder(s, cur_memlimit, LZMA_CONCATENATED | LZMA_TELL_ANY_CHECK | LZMA_TELL_UNSUPPORTED_CHECK | LZMA_TELL_NO_CHECK);
 	case EP_ALONE: return lzma_alone_decoder(s, cur_memlimit);
 	case EP_LZIP: return lzma_lzip_decoder(s, cur_memlimit, 0);
 	case EP_LZIP_C: return lzma_lzip_decoder(s, cur_memlimit, LZMA_CONCATENATED | LZMA_IGNORE_CHECK);
